@@ -48,6 +48,12 @@ def run(prog, rep, tier):
         it["rule"] = "R5.2"
         rep.items.append(it)
         rep.counts["R5.2"] = rep.counts.get("R5.2", 0) + 1
+    # "linearly independent and spanning": the reduced coding of a factor drops exactly the reference level (one zero / -1 row at
+    # the position whose label is removed) and the full coding is the identity - the contrast obligations of C04's R4.2,
+    # reported here as R5.8
+    from ..core import reuse_rule
+    reuse_rule(rep, C04.r4_2, "R5.8", prog, keep=lambda it: it.get("function", "").startswith("formulae.categorical."))
+    rep.floor("R5.8", 6)
     shared.new_group_block(prog, rep, "R5.3")
     r5_4(prog, rep)
     r5_5(prog, rep)
@@ -225,8 +231,7 @@ def r5_4(prog, rep):
         return
     A = f"isinstance({t}.expr, Intercept)"
     E = f"any(_u.factor == {t}.factor and isinstance(_u.expr, Intercept) for _u in self.group_terms)"
-    E2 = f"any({t}.factor == _u.factor and isinstance(_u.expr, Intercept) for _u in self.group_terms)"
-    atoms_n = [E if a == E2 else a for a in atoms]
+    atoms_n = [E if _exists_group_intercept(f, lp, a, t) else a for a in atoms]
     ok = sorted(atoms_n) == sorted([A, E])
     if ok:
         ia, ie = atoms_n.index(A), atoms_n.index(E)
@@ -237,6 +242,64 @@ def r5_4(prog, rep):
         "the effect is coded in full unless it is not an intercept and a group intercept (1|same factor) is in the model, searched over all group terms",
         f"coding = {SX.render(v)}",
         f"the coding handed to set_data is `{SX.render(v)}` (atoms {atoms}): not `intercept or no (1|same factor) among all group-specific terms`")
+
+
+def _exists_group_intercept(f, lp, atom, t):
+    """is `atom` the question 'some group-specific term has the factor of <t> and an Intercept expression', asked over ALL of
+    self.group_terms?  Accepted: any(<conjunction> for u in self.group_terms), conjuncts in any order, `==` either way round; the
+    search may go through a list computed once before the loop from self.group_terms
+    (`fs = [u.factor for u in self.group_terms if isinstance(u.expr, Intercept)]` ... `any(x == t.factor for x in fs)`)."""
+    import copy
+
+    try:
+        e = ast.parse(atom, mode="eval").body
+    except SyntaxError:
+        return False
+    if not (isinstance(e, ast.Call) and unparse(e.func) == "any" and len(e.args) == 1 and not e.keywords
+            and isinstance(e.args[0], (ast.GeneratorExp, ast.ListComp)) and len(e.args[0].generators) == 1):
+        return False
+    g = e.args[0].generators[0]
+    if not isinstance(g.target, ast.Name) or g.is_async:
+        return False
+    var, src, conj = g.target.id, g.iter, [e.args[0].elt] + list(g.ifs)
+    if isinstance(src, ast.Name):
+        # a local bound once, in front of the loop (same block), to a comprehension over self.group_terms
+        defs = [st for st in walk_local(f.node) if isinstance(st, ast.Assign) and any(isinstance(x, ast.Name) and x.id == src.id for tg in st.targets for x in ast.walk(tg))]
+        stores = [n for n in walk_local(f.node) if isinstance(n, ast.Name) and n.id == src.id and isinstance(n.ctx, (ast.Store, ast.Del))]
+        touched = [c for c in calls_in(f.node) if isinstance(c.func, ast.Attribute) and unparse(c.func.value) == src.id]
+        if len(defs) != 1 or len(stores) != 1 or touched or defs[0] not in f.body or lp not in f.body or f.body.index(defs[0]) > f.body.index(lp):
+            return False
+        between = f.body[f.body.index(defs[0]) + 1: f.body.index(lp)]
+        if any(isinstance(n, ast.Attribute) and n.attr == "group_terms" and isinstance(n.ctx, ast.Store) for st in between for n in ast.walk(st)) \
+                or any(isinstance(c.func, ast.Attribute) and unparse(c.func.value) == "self.group_terms" for st in between for c in calls_in(st)):
+            return False
+        v = defs[0].value
+        if isinstance(v, ast.Call) and unparse(v.func) in ("list", "tuple") and len(v.args) == 1:
+            v = v.args[0]
+        if not (isinstance(v, (ast.ListComp, ast.GeneratorExp, ast.SetComp)) and len(v.generators) == 1 and isinstance(v.generators[0].target, ast.Name)):
+            return False
+        if isinstance(defs[0].value, ast.GeneratorExp):
+            return False   # a generator is exhausted by the first search
+        inner = v.generators[0]
+
+        class S(ast.NodeTransformer):
+            def visit_Name(self, n):
+                return copy.deepcopy(v.elt) if n.id == var and isinstance(n.ctx, ast.Load) else n
+
+        conj = [S().visit(copy.deepcopy(c)) for c in conj] + list(inner.ifs)
+        var, src = inner.target.id, inner.iter
+    if unparse(src) != "self.group_terms" or var == t:
+        return False
+    flat = []
+    for c in conj:
+        flat.extend(c.values if isinstance(c, ast.BoolOp) and isinstance(c.op, ast.And) else [c])
+    got = set()
+    for c in flat:
+        if isinstance(c, ast.Compare) and len(c.ops) == 1 and isinstance(c.ops[0], ast.Eq):
+            got.add("==".join(sorted([unparse(c.left), unparse(c.comparators[0])])))
+        else:
+            got.add(unparse(c))
+    return got == {"==".join(sorted([f"{var}.factor", f"{t}.factor"])), f"isinstance({var}.expr, Intercept)"}
 
 
 def r5_5(prog, rep):
